@@ -285,6 +285,33 @@ def _defaulting_ok(fi, a, carrier, stagef):
     from .common import guards_of
     if not isinstance(a, ast.Assign):
         return 'in-place modification of the caller\'s dict'
+    # x = {...} if x is None else x   /   x = x if x else {...}   (conditional-expression form of the idiom)
+    if isinstance(a.value, ast.IfExp) and not guards_of(fi, a):
+        t, body, orelse = a.value.test, a.value.body, a.value.orelse
+        neg = False
+        if isinstance(t, ast.UnaryOp) and isinstance(t.op, ast.Not):
+            t, neg = t.operand, True
+        is_none = isinstance(t, ast.Compare) and len(t.ops) == 1 and isinstance(t.left, ast.Name) \
+            and t.left.id == carrier and isinstance(t.comparators[0], ast.Constant) \
+            and t.comparators[0].value is None and isinstance(t.ops[0], (ast.Is, ast.IsNot))
+        truthy = isinstance(t, ast.Name) and t.id == carrier
+        if is_none or truthy:
+            none_branch_is_body = (is_none and isinstance(t.ops[0], ast.Is)) != neg if is_none else neg
+            dflt, keep = (body, orelse) if none_branch_is_body else (orelse, body)
+            keep_ok = (isinstance(keep, ast.Name) and keep.id == carrier) or (
+                isinstance(keep, ast.Call) and unparse(keep) in ('%s.copy()' % carrier, 'dict(%s)' % carrier))
+            fake = ast.Assign(targets=a.targets, value=dflt)
+            v = _literal(dflt)
+            if keep_ok and v is not _NoLit and isinstance(v, dict):
+                for k, val in v.items():
+                    d = stagef.defaults.get(k)
+                    if d is None:
+                        return 'default key %r is not a formal of %s' % (k, stagef.name)
+                    dv = _literal(d)
+                    if dv is _NoLit or dv != val:
+                        return 'default %s=%r differs from the signature default %r of %s' % (k, val, dv, stagef.name)
+                return None
+            return 'supplied options replaced by %s' % unparse(a.value)[:60]
     guards = guards_of(fi, a)
     if not guards:
         return 'unconditional reassignment'
